@@ -32,6 +32,11 @@ ODD_CHARS = [(",", "a comma"), (" ", "a blank"), ("%", "a percent sign"), ("_", 
              ("*", "a wildcard"), ("?", "a wildcard"), ("[", "a wildcard")]
 
 
+def is_empty(flavor):
+    """Flavours "empty" (seqid and/or source '' on some lines) and "empty-all" (every seqid is '')."""
+    return flavor in ("empty", "empty-all")
+
+
 def odd_classes(text):
     return sorted(set(name for ch, name in ODD_CHARS if ch in text))
 
@@ -43,12 +48,12 @@ def make_set(seed, n, flavor=None):
         types = rng.sample(ODD_TYPES[:3], rng.choice([2, 3, 3])) + rng.sample(ODD_TYPES[3:], rng.choice([2, 3, 5]))
         sources = rng.sample(ODD_SOURCES, rng.choice([2, 3]))
     elif flavor == "norm":
-        k = rng.choice([2, 2, 4])                               # the first k of each list are NFC/NFD twins
-        seqids = NORM_SEQIDS[:k] + rng.sample(NORM_SEQIDS[k:], rng.choice([1, 2, 4]))
-        types = NORM_TYPES[:2] + rng.sample(NORM_TYPES[2:], rng.choice([1, 3, 5]))
+        # the first two of each list are NFC/NFD twins, the third a case twin of the first
+        seqids = NORM_SEQIDS[:3] + rng.sample(NORM_SEQIDS[3:], rng.choice([0, 1, 3]))
+        types = NORM_TYPES[:3] + rng.sample(NORM_TYPES[3:], rng.choice([0, 2, 4]))
         sources = NORM_SOURCES[:2] + rng.sample(NORM_SOURCES[2:], rng.choice([0, 1, 3]))
-    elif flavor == "empty":
-        which = rng.choice(["seqid", "source", "both", "both", "all seqids"])
+    elif is_empty(flavor):
+        which = "all seqids" if flavor == "empty-all" else rng.choice(["seqid", "source", "both", "both"])
         seqids = rng.sample(SEQIDS, rng.choice([1, 2, 3]))
         sources = rng.sample(SOURCES, rng.choice([1, 2]))
         if which in ("seqid", "both"):
